@@ -77,6 +77,11 @@ pub fn run_statistics_worker(
     let mut peers: IndexMap<PeerId, (usize, PeerClient, CompactString)> = IndexMap::default();
 
     loop {
+        #[cfg(feature = "verif-hooks")]
+        if aquatic_common::verif_hooks::fault_point("statistics") {
+            return Ok(());
+        }
+
         let start_time = Instant::now();
 
         for message in statistics_receiver.try_iter() {
